@@ -96,7 +96,7 @@ impl<T> Array<T> {
             None
         } else {
             let offset = index * self.strides[axis.0];
-            let data = &self.data[offset..];
+            let data = &self.data[offset.min(self.data.len())..];
             let shape = self.shape.remove_axis(axis);
             let strides = self.strides.remove_axis(axis);
 
